@@ -52,6 +52,25 @@ func (p *stagePlugin) PreCall(ctx context.Context, serviceName, methodName strin
 	return args, nil
 }
 
+// a service with raw-bytes arguments and reply (serialize type 0): "id:a:b" -> "a*b"
+type RawSvc struct{ h *handlerEnv }
+
+func (t *RawSvc) Mul(ctx context.Context, a *[]byte, r *[]byte) error {
+	f := strings.Split(string(*a), ":")
+	if len(f) != 3 {
+		return errors.New("raw: bad arguments")
+	}
+	id, _ := strconv.Atoi(f[0])
+	x, _ := strconv.Atoi(f[1])
+	y, _ := strconv.Atoi(f[2])
+	c, err := t.h.run(id, x, y, "ok", "")
+	if err != nil {
+		return err
+	}
+	*r = []byte(strconv.Itoa(c))
+	return nil
+}
+
 type tcpRig struct {
 	srv  *server.Server
 	h    *handlerEnv
@@ -74,9 +93,14 @@ func newTCPRig(acceptVeto, postRead, auth, preCall bool) (*tcpRig, error) {
 		rep.Meta = seenMeta(ctx, a.Id)
 		return nil
 	}, "")
+	s.RegisterName("Raw", &RawSvc{h: rg.h}, "")
+	// the rejecting plugin stands between two plugins that accept everything: a stage's verdict is a
+	// rejection as soon as one of its plugins rejects, wherever it is registered
+	s.Plugins.Add(&stagePlugin{})
 	if acceptVeto || postRead || preCall {
 		s.Plugins.Add(&stagePlugin{acceptVeto, postRead, preCall})
 	}
+	s.Plugins.Add(&stagePlugin{})
 	if auth {
 		s.AuthFunc = func(ctx context.Context, req *protocol.Message, token string) error {
 			if token == "good" {
@@ -130,6 +154,7 @@ type ingReq struct {
 	seq       uint64
 	malformed string // gateway: nopath nomethod noser badid badser badmeta; jsonrpc: nodot
 	payload   string // overrides the JSON body when set
+	raw       bool   // serialize type 0: raw bytes (native and gateway only)
 }
 
 type ingRes struct {
@@ -143,7 +168,17 @@ type ingRes struct {
 	status  int
 }
 
+func (q ingReq) ser() byte {
+	if q.raw {
+		return 0
+	}
+	return 1
+}
+
 func (q ingReq) body() []byte {
+	if q.raw {
+		return []byte(fmt.Sprintf("%d:%d:%d", q.id, q.a, q.b))
+	}
 	if q.payload != "" {
 		return []byte(q.payload)
 	}
@@ -176,7 +211,7 @@ func (r *tcpRig) doNative(q ingReq) ingRes {
 	if q.token != "" {
 		meta = append(meta, refcodec.KV{K: []byte(share.AuthKey), V: []byte(q.token)})
 	}
-	spec := reqSpec{seq: q.seq, path: q.path, method: q.method, ser: 1, hb: q.hb, oneway: q.ow, payload: q.body(), meta: meta}
+	spec := reqSpec{seq: q.seq, path: q.path, method: q.method, ser: q.ser(), hb: q.hb, oneway: q.ow, payload: q.body(), meta: meta}
 	conn.SetDeadline(time.Now().Add(3 * time.Second))
 	if _, err := conn.Write(spec.frame()); err != nil {
 		return ingRes{kind: "nothing", closed: true}
@@ -235,7 +270,10 @@ func (r *tcpRig) doNative(q ingReq) ingRes {
 			res.kind, res.text = "error", v.errText
 		default:
 			res.kind = "result"
-			if rp, ok := replyOf(v); ok {
+			if q.raw {
+				res.c, _ = strconv.Atoi(string(v.payload))
+				res.id = q.id
+			} else if rp, ok := replyOf(v); ok {
 				res.c, res.id, res.meta = rp.C, rp.Id, rp.Meta
 			}
 		}
@@ -249,7 +287,7 @@ func (r *tcpRig) doGateway(q ingReq) ingRes {
 	h := req.Header
 	h.Set("X-RPCX-MessageID", strconv.FormatUint(q.seq, 10))
 	h.Set("X-RPCX-MessageType", "0")
-	h.Set("X-RPCX-SerializeType", "1")
+	h.Set("X-RPCX-SerializeType", strconv.Itoa(int(q.ser())))
 	h.Set("X-RPCX-ServicePath", q.path)
 	h.Set("X-RPCX-ServiceMethod", q.method)
 	if q.hb {
@@ -312,7 +350,10 @@ func (r *tcpRig) doGateway(q ingReq) ingRes {
 		return res
 	}
 	var rp SReply
-	if json.Unmarshal(body, &rp) == nil {
+	if q.raw {
+		res.c, _ = strconv.Atoi(string(body))
+		res.id = q.id
+	} else if json.Unmarshal(body, &rp) == nil {
 		res.c, res.id, res.meta = rp.C, rp.Id, rp.Meta
 	}
 	return res
@@ -429,7 +470,7 @@ func (q ingReq) modelLine(cfg [4]bool) string {
 	switch {
 	case q.path == "Fn":
 		target = "func"
-	case q.path != "Arith" && q.path != "com.example.Arith":
+	case q.path != "Arith" && q.path != "com.example.Arith" && q.path != "Raw":
 		target = "nosvc"
 	case q.method == "nometh":
 		target = "nometh"
@@ -600,7 +641,16 @@ func runIngress(prop string, r *common.Rand, tier string, o *common.Out, replay 
 			}
 			cfg := [4]bool{false, false, r.Bool(), false}
 			var res [3]ingRes
-			for k, ing := range []string{"native", "gateway", "jsonrpc"} {
+			ings := []string{"native", "gateway", "jsonrpc"}
+			if r.Chance(20) {
+				// every serialization type the native protocol carries goes through the gateway too: raw bytes
+				q.raw, q.mode, q.text, q.payload, q.meta = true, "ok", "", "", nil
+				if q.path != "NoSvc" && q.path != "no.such.Service" {
+					q.path, q.method = "Raw", "Mul"
+				}
+				ings = ings[:2]
+			}
+			for k, ing := range ings {
 				qq := q
 				qq.ing = ing
 				res[k] = runOne(next(), cfg, qq)
@@ -615,7 +665,9 @@ func runIngress(prop string, r *common.Rand, tier string, o *common.Out, replay 
 				}
 			}
 			cmp("gateway", res[0], res[1], true)
-			cmp("jsonrpc", res[0], res[2], false)
+			if !q.raw {
+				cmp("jsonrpc", res[0], res[2], false)
+			}
 		}
 	}
 }
